@@ -54,7 +54,7 @@ def _replay_chunk(args):
     for j, line in enumerate(lines):
         i = base + j
         hist = json.loads(line)['hist']
-        flavour = S.FLAVOURS[i % 4]
+        flavour = S.ext_flavour(i)
         res = S.replay(hist, c, flavour, variant=i // 4, scratch=scratch)
         nsteps += len(hist)
         if any(st['ev']['op'] not in ('copy', 'dict', 'matrices', 'saveload', 'to_df', 'drop') for st in hist):
@@ -89,7 +89,7 @@ def replay_all(ctx, pid, r, c, label):
 def _trace_one(args):
     seed, c, length, ops, scratch = args
     rng = np.random.default_rng(seed)
-    flavour = S.FLAVOURS[seed % 4]
+    flavour = S.ext_flavour(seed)
     return seed, flavour, S.random_trace(rng, c, flavour, length, ops, scratch=scratch)
 
 
